@@ -21,6 +21,7 @@
 #include <unordered_map>
 
 #include "endgame.h"
+#include "logger.h"
 #include "movegen.h"
 #include "polyglot.h"
 #include "position.h"
@@ -480,6 +481,7 @@ extern "C" void verif_point(int id, const void* a, const void* b)
     case VERIF_PT_GO_AFTER_INIT:
     case VERIF_PT_GO_AFTER_RESET:
     case VERIF_PT_ITER_DONE:
+        if (g_debug) fprintf(stderr, "[go phase %d task %d] Search %p flag=%d\n", id, t->id, a, int(static_cast<const engine::Search*>(a)->stop_search));
         W->on_go_phase(t, id);
         yieldpoint(t, id);
         break;
@@ -491,6 +493,7 @@ extern "C" void verif_point(int id, const void* a, const void* b)
         yieldpoint(t, id);
         break;
     case VERIF_PT_STOP_EXIT:
+        if (g_debug) fprintf(stderr, "[stop exit] Search %p flag=%d\n", a, int(static_cast<const engine::Search*>(a)->stop_search));
         W->on_stop_exit(t);
         yieldpoint(t, id);
         break;
@@ -708,7 +711,19 @@ void World::gui_note_sent(const std::string& line)
 
 void World::send_line(const Op& op)
 {
-    inq.push_back(op.line.find("@BOOK@") != std::string::npos ? book_substitute(this, op.line) : op.line);
+    if (op.line.find("@LOG@") != std::string::npos)
+    {
+        // per-process scratch log file, removed with the world
+        std::string l = op.line;
+        const char* d = getenv("VERIF_DIR");
+        std::string dir = std::string(d ? d : "/verif") + "/build/run";
+        log_path = dir + "/enginelog_" + std::to_string(getpid()) + ".txt";
+        l.replace(l.find("@LOG@"), 5, log_path);
+        inq.push_back(l);
+        counters["logfile_option"]++;
+    }
+    else
+        inq.push_back(op.line.find("@BOOK@") != std::string::npos ? book_substitute(this, op.line) : op.line);
     trace_event(0x5E4D, fnv1a(FNV_INIT, op.line.data(), op.line.size()), uint64_t(inq.size()));
     gui_note_sent(op.line);
     // faults attached to a go are bound to its GoRec
@@ -727,9 +742,11 @@ void World::on_line_consumed(Task* t, const std::string& line)
 {
     TSAN_ACQUIRE(&gui_sync);
     int s = int(seq++);
+    if (g_debug) fprintf(stderr, "[consume seq %d clock %ld] %s\n", s, (long)clock_ns, line.c_str());
     {
         // the book path names a per-process scratch file: keep it out of the trace hash
         size_t bp = line.find("Polyglot Book value");
+        if (bp == std::string::npos) bp = line.find("Logfile value");
         size_t hl = bp == std::string::npos ? line.size() : bp;
         trace_event(0xC0115, fnv1a(FNV_INIT, line.data(), hl), uint64_t(s));
     }
@@ -845,7 +862,7 @@ void World::on_go_entry(Task* t)
     g.entry_clock = clock_ns;
     g.entered = true;
 #if defined(VERIF_TSAN)
-    g_tsan_stop_flag_addr[t->id & 3] = &s->stop_search;
+    g_tsan_stop_flag_addr[t->id & 3] = (void*)&s->stop_search;
 #endif
     if (monitors_on) monitor_go_entry(t, s);
 }
@@ -906,6 +923,7 @@ void World::on_line_emitted(Task* t, const std::string& line)
 {
     TSAN_RELEASE(&gui_sync);
     int s = int(seq++);
+    if (g_debug) fprintf(stderr, "[emit task %d seq %d nodes %ld] %s\n", t->id, s, (long)t->nodes, line.c_str());
     trace_event(0x0E71 + (uint64_t(t->id) << 16), fnv1a(FNV_INIT, line.data(), line.size()), uint64_t(s));
     bool mixed = out_line_mixed;
     out_line_mixed = false;
@@ -1806,6 +1824,11 @@ RunResult run_world(const Script& script)
 
     world.teardown_monitors();
     book_teardown(&world);
+    if (!world.log_path.empty())
+    {
+        engine::logger.close_file();
+        unlink(world.log_path.c_str());
+    }
     delete world.uci;
     world.uci = nullptr;
     W = nullptr;
